@@ -10,9 +10,9 @@ Driver for C02 — three-way differential: Go in-memory world vs Go compact worl
   `reset`                       answer `-`                 (next input of the corpus case)
 
 Property predicate on a `q` line: the two Go answers are equal.  When they differ the line is a property
-failure; it carries `class=compact-references-partial` exactly when the query is a `refs`/`rels` query, both
-Go answers are what the model predicts, and the `oneLevel` hypothesis of the `_partial` theorems is false
-for this world and id.  When they agree but differ from the model the line is a `diff`.
+failure; it carries `class=compact-referrers-of-absent-id` exactly when the query is a `refs`/`rels` query, both
+Go answers are what the model predicts, and the `hasRecord` hypothesis of `references_equiv` /
+`relations_by_feature_equiv` is false for this world and id (no feature under the id, and not a point id).  When they agree but differ from the model the line is a `diff`.
 -/
 open B6.Driver B6.Model.WorldRead B6.Driver.C02Common
 namespace B6.Driver.C02
@@ -47,10 +47,10 @@ def step (st : St) (op impl : String) : St × Verdict :=
           | [k, x] =>
             (k == "refs" || k == "rels") && mb == some b && mc == some c &&
               (match parseId x with
-               | some i => !(oneLevel w i (if k == "rels" then [.relation] else []))
+               | some i => !(hasRecord w i)
                | none => false)
           | _ => false
-        (st, .propfail ((key.headD "?") ++ (if known then " class=compact-references-partial" else "")))
+        (st, .propfail ((key.headD "?") ++ (if known then " class=compact-referrers-of-absent-id" else "")))
       else
         match mb, mc with
         | some x, some y => (st, if x == b && y == c then .ok else .diff (x ++ " ## " ++ y))
